@@ -13,7 +13,7 @@ QUICK = dict(runs=1200, wall=85)
 THOROUGH = dict(runs=80000, wall=1800)
 RULE = ('op sequences (4-25 ops) on list / dict / Namespace / Value / custom-class proxies, each op issued by a generated party: the driver '
         'process, a client process, or a second thread inside the client process (own connection), all holding proxies of the same hosted '
-        'objects; generated picklable arguments; ops that raise (pop from empty, KeyError, ValueError, TypeError in a custom method, a '
+        'objects (the client process may drop all of them and be handed them again); generated picklable arguments; ops that raise (pop from empty, KeyError, ValueError, TypeError in a custom method, a '
         'custom exception class with its own __init__); methods returning managed() values (flat and nested); op-by-op comparison with a '
         'local reference object; a concurrent phase of commuting ops (appends of unique values / disjoint keys from two processes at '
         'once) compared as a multiset')
@@ -29,6 +29,10 @@ def gen(rng, tier):
     for _ in range(rng.choice([4, 8, 12, 18, 25])):
         target = rng.choice(['list', 'list', 'dict', 'dict', 'ns', 'value', 'maker', 'managed'])
         party = rng.choice(['main', 'main', 'agent', 'agent', 'agent_thread'])
+        if rng.random() < 0.08:
+            # the client process lets go of every proxy it holds and is handed them again: the objects are the same, the connections are not
+            ops.append(['agent', 'ctl', 'reacquire', 0, 0, 0])
+            continue
         v, v2 = rng.choice(VALS), rng.choice(VALS)
         i = rng.choice([0, 1, 2, -1, 5])
         if target == 'list':
@@ -210,6 +214,16 @@ def run(sim, sc):
             party, kind, meth, a, v, i = op
             if kind == 'list' and meth == 'sort':
                 continue  # key functions do not pickle by value; covered by reverse
+            if kind == 'ctl':
+                for k in px:
+                    ag.cmd('drop', k)
+                ag.cmd('gc')
+                bad = [k for k, p in px.items() if ag.cmd('hold', k, p) != 'ok']
+                if bad:
+                    sim.violation('setup:agent-could-not-receive-proxy', {'kind': bad, 'after': 'reacquire'})
+                    break
+                sim.count('agent_reacquired_proxies')
+                continue
             # ---- expected (local reference object)
             if kind == 'managed':
                 got = _managed_use(sim, party, meth, a, px, ag)
